@@ -201,11 +201,27 @@ class Cell(NullCell):
         """
         if result is None:
             result = {}
-        if self in result:
-            result.pop(self)
-        result[self] = None
-        for ref in self.refs:
-            ref.order(result)
+        # A cell takes the position of its LAST visit in a pre-order walk of the unfolded DAG (parents before children).
+        # That is the reverse of a memoised post-order walk taking the references right to left, which is linear in
+        # cells + references and needs no recursion (deep chains, heavily shared sub-DAGs).
+        post = []
+        seen = {self}
+        stack = [(self, len(self.refs))]
+        while stack:
+            cell, i = stack[-1]
+            if i == 0:
+                stack.pop()
+                post.append(cell)
+                continue
+            stack[-1] = (cell, i - 1)
+            ref = cell.refs[i - 1]
+            if ref not in seen:
+                seen.add(ref)
+                stack.append((ref, len(ref.refs)))
+        for cell in reversed(post):
+            if cell in result:
+                result.pop(cell)
+            result[cell] = None
         return result
 
     def serialize(self, indexes: dict, byte_len: int) -> bytes:
